@@ -7,6 +7,11 @@ import sys, importlib, traceback
 sys.path.insert(0, '.')
 from harness import common
 common.use_repo_sources()
+try:
+    from py2coq import units
+    print("py2coq", units.regen(common.REPO, "coq/gen"))
+except Exception:
+    traceback.print_exc()
 for name in ("c13", "c18"):
     try:
         mod = importlib.import_module("harness." + name)
